@@ -12,7 +12,7 @@ import ScalesModel.Adapter.E2E
 import ScalesModel.Adapter.TagPool
 import ScalesModel.Adapter.FrontEnd
 import ScalesModel.Proofs.MuxTimeoutLemmas
-import ScalesModel.Adapter.Serial
+import ScalesModel.Adapter.SerialC12
 import ScalesModel.Props.C07
 namespace Scales.C12
 
@@ -413,5 +413,227 @@ theorem C12_pool_skips_timed_out (cfg : Watermark.Cfg) (ops : List Watermark.Op)
     -- is started
     (Watermark.step cfg (runOps cfg Watermark.St.init ops) .run).2.evs = [.sent sid c] :=
   (C07_timed_out_waiter_skipped cfg ops sid c rest w1 w2 ht hw hgone hc).1
+
+namespace SerialSpec
+open Scales.Serial Scales.Transport
+
+theorem sent_in_flight (s : Serial.St) (op : Serial.Op) (id : Nat) (h : id ∈ (Serial.stepOut s op).2.sent) :
+    ∃ t, s.processing = some t ∧ t.id = id := by
+  obtain ⟨cs, so, ores, pr⟩ := s
+  cases op with
+  | openT r => simp [Serial.stepOut] at h
+  | close => simp [Serial.stepOut] at h
+  | look => simp [Serial.stepOut] at h
+  | timeoutHere r =>
+    cases pr with
+    | none => simp [Serial.stepOut, Serial.St.timeoutHere] at h
+    | some t => cases hd : t.hasDl <;> simp [Serial.stepOut, Serial.St.timeoutHere, hd] at h
+  | req id' dl =>
+    cases pr with
+    | some t => simp [Serial.stepOut, Serial.St.request] at h
+    | none =>
+      cases dl <;> cases so <;> simp [Serial.stepOut, Serial.St.request] at h
+  | io o =>
+    cases pr with
+    | none => simp [Serial.stepOut, Serial.St.io] at h
+    | some t =>
+      cases o <;> cases hp : t.phase <;> simp [Serial.stepOut, Serial.St.io, hp] at h
+      exact ⟨t, rfl, h.symm⟩
+
+theorem timeout_ends (s : Serial.St) (op : Serial.Op) (id : Nat)
+    (h : id ∈ SerialC12.timeoutsIn (Serial.stepOut s op).2.eff.dels) :
+    (Serial.stepOut s op).1.processing = none ∧
+    ((∃ t, s.processing = some t ∧ t.id = id) ∨ (∃ r, op = .req id (.past r) ∧ s.processing = none)) := by
+  obtain ⟨cs, so, ores, pr⟩ := s
+  unfold SerialC12.timeoutsIn at h
+  cases op with
+  | openT r =>
+    cases r <;> cases ores <;>
+      simp [Serial.stepOut, Serial.St.openT, Serial.St.openImpl, Serial.St.fault] at h <;>
+      (try (split at h <;> simp at h))
+  | close => simp [Serial.stepOut] at h
+  | look => simp [Serial.stepOut] at h
+  | timeoutHere r =>
+    cases pr with
+    | none => simp [Serial.stepOut, Serial.St.timeoutHere] at h
+    | some t =>
+      cases hd : t.hasDl
+      · simp [Serial.stepOut, Serial.St.timeoutHere, hd] at h
+      · cases so <;> cases r <;>
+          simp [Serial.stepOut, Serial.St.timeoutHere, hd, Serial.St.txnTimeout, Serial.St.fault] at h ⊢ <;>
+          (try split) <;> simp_all
+  | req id' dl =>
+    cases pr with
+    | some t => simp [Serial.stepOut, Serial.St.request] at h
+    | none =>
+      cases dl with
+      | none => cases so <;> simp [Serial.stepOut, Serial.St.request, Serial.St.txnFail, Serial.St.fault] at h <;>
+          (try (split at h <;> simp at h))
+      | future => cases so <;> simp [Serial.stepOut, Serial.St.request, Serial.St.txnFail, Serial.St.fault] at h <;>
+          (try (split at h <;> simp at h))
+      | past r =>
+        cases so <;> cases r <;>
+          simp [Serial.stepOut, Serial.St.request, Serial.St.txnTimeout, Serial.St.fault] at h ⊢ <;>
+          (try split) <;> simp_all
+  | io o =>
+    cases pr with
+    | none => simp [Serial.stepOut, Serial.St.io] at h
+    | some t =>
+      cases o <;> cases hp : t.phase <;>
+        simp [Serial.stepOut, Serial.St.io, hp, Serial.St.txnFail, Serial.St.fault] at h <;>
+        (try (split at h <;> simp at h))
+
+theorem processing_origin (s : Serial.St) (op : Serial.Op) (t' : Txn)
+    (h : (Serial.stepOut s op).1.processing = some t') :
+    (∃ t, s.processing = some t ∧ t.id = t'.id) ∨ (∃ dl, op = .req t'.id dl ∧ s.processing = none) := by
+  obtain ⟨cs, so, ores, pr⟩ := s
+  cases op with
+  | openT r =>
+    cases r <;> cases ores <;> cases pr <;>
+      simp_all [Serial.stepOut, Serial.St.openT, Serial.St.openImpl, Serial.St.fault, Serial.St.close] <;>
+      (try (split at h <;> simp_all [Serial.St.close]))
+  | close => simp [Serial.stepOut, Serial.St.close] at h
+  | look => left; exact ⟨t', by simpa [Serial.stepOut] using h, rfl⟩
+  | timeoutHere r =>
+    cases pr with
+    | none => simp [Serial.stepOut, Serial.St.timeoutHere] at h
+    | some t =>
+      cases hd : t.hasDl
+      · left; simp [Serial.stepOut, Serial.St.timeoutHere, hd] at h; exact ⟨t, rfl, by rw [h]⟩
+      · cases so <;> cases r <;>
+          simp [Serial.stepOut, Serial.St.timeoutHere, hd, Serial.St.txnTimeout, Serial.St.fault] at h <;>
+          (try (split at h <;> simp at h))
+  | req id' dl =>
+    cases pr with
+    | some t => left; simp [Serial.stepOut, Serial.St.request] at h; exact ⟨t, rfl, by rw [h]⟩
+    | none =>
+      right
+      cases dl with
+      | none => cases so <;> simp [Serial.stepOut, Serial.St.request, Serial.St.txnFail, Serial.St.fault] at h <;>
+          (try (split at h <;> simp at h)) <;> exact ⟨_, by rw [← h], rfl⟩
+      | future => cases so <;> simp [Serial.stepOut, Serial.St.request, Serial.St.txnFail, Serial.St.fault] at h <;>
+          (try (split at h <;> simp at h)) <;> exact ⟨_, by rw [← h], rfl⟩
+      | past r =>
+        cases so <;> cases r <;>
+          simp [Serial.stepOut, Serial.St.request, Serial.St.txnTimeout, Serial.St.fault] at h <;>
+          (try (split at h <;> simp at h))
+  | io o =>
+    cases pr with
+    | none => simp [Serial.stepOut, Serial.St.io] at h
+    | some t =>
+      left
+      cases o <;> cases hp : t.phase <;>
+        simp [Serial.stepOut, Serial.St.io, hp, Serial.St.txnFail, Serial.St.fault] at h <;>
+        (try (split at h <;> simp at h)) <;> exact ⟨t, rfl, by rw [← h]⟩
+
+structure Rel (a : SerialC12.Acc) (s : Serial.St) (seen : List Nat) : Prop where
+  r1 : ∀ id ∈ a.timedOut, id ∈ seen
+  r2 : ∀ t, s.processing = some t → t.id ∈ seen ∧ t.id ∉ a.timedOut
+
+theorem specGo_ok : ∀ (ops : List Serial.Op) (a : SerialC12.Acc) (s : Serial.St) (seen : List Nat),
+    Rel a s seen → Serial.opsOk s seen ops = true →
+    SerialC12.specGo a (SerialC12.comp.trace () s ops) = .ok := by
+  intro ops
+  induction ops with
+  | nil => intros; rfl
+  | cons op ops ih =>
+    intro a s seen hrel hok
+    simp only [Serial.opsOk, Bool.and_eq_true] at hok
+    obtain ⟨hen, hrest⟩ := hok
+    simp only [TComp.trace, SerialC12.comp, Serial.step, SerialC12.specGo]
+    have hsent := sent_in_flight s op
+    -- this step's verdict
+    have hv : SerialC12.specObs a op (Serial.obsOf (Serial.stepOut s op).1 (Serial.stepOut s op).2) = .ok := by
+      unfold SerialC12.specObs
+      have h1 : (Serial.obsOf (Serial.stepOut s op).1 (Serial.stepOut s op).2).sent.find?
+          (fun id => a.timedOut.contains id) = none := by
+        rw [List.find?_eq_none]
+        intro id hid
+        obtain ⟨t, ht, rfl⟩ := hsent id hid
+        simpa using (hrel.r2 t ht).2
+      rw [h1]
+      cases op with
+      | req id dl =>
+        cases dl with
+        | past r =>
+          have : ¬ id ∈ (Serial.obsOf (Serial.stepOut s (.req id (.past r))).1 (Serial.stepOut s (.req id (.past r))).2).sent := by
+            intro hid
+            obtain ⟨t, ht, hte⟩ := hsent id hid
+            have hs := (hrel.r2 t ht).1
+            simp only [Serial.enabled, Bool.not_eq_true', List.contains_eq_mem, decide_eq_false_iff_not] at hen
+            rw [hte] at hs; exact hen hs
+          simp [this]
+        | none => rfl
+        | future => rfl
+      | _ => rfl
+    rw [hv]
+    apply ih _ _ _ _ hrest
+    -- the relation after the step
+    have hexp : ∀ id ∈ SerialC12.expiredOf op, id ∉ seen ∧ Serial.isReq op = some id := by
+      intro id hid
+      cases op with
+      | req id' dl =>
+        cases dl with
+        | past r =>
+          simp only [SerialC12.expiredOf, List.mem_singleton] at hid; subst hid
+          simp only [Serial.enabled, Bool.not_eq_true', List.contains_eq_mem, decide_eq_false_iff_not] at hen
+          exact ⟨hen, rfl⟩
+        | none => simp [SerialC12.expiredOf] at hid
+        | future => simp [SerialC12.expiredOf] at hid
+      | _ => simp [SerialC12.expiredOf] at hid
+    constructor
+    · intro id hid
+      simp only [SerialC12.Acc.after, List.mem_append] at hid
+      rcases hid with (hid | hid) | hid
+      · have := hrel.r1 id hid
+        cases h : Serial.isReq op <;> simp [this]
+      · rw [(hexp id hid).2]; simp
+      · obtain ⟨_, hor⟩ := timeout_ends s op id hid
+        rcases hor with ⟨t, ht, rfl⟩ | ⟨r, rfl, _⟩
+        · have := (hrel.r2 t ht).1
+          cases h : Serial.isReq op <;> simp [this]
+        · simp [Serial.isReq]
+    · intro t' ht'
+      have hnone : ∀ id ∈ SerialC12.timeoutsIn (Serial.stepOut s op).2.eff.dels, False := by
+        intro id hid
+        have := (timeout_ends s op id hid).1
+        rw [this] at ht'; cases ht'
+      have hto : SerialC12.timeoutsIn (Serial.obsOf (Serial.stepOut s op).1 (Serial.stepOut s op).2).dels = [] := by
+        rw [List.eq_nil_iff_forall_not_mem]; intro id hid; exact hnone id hid
+      simp only [SerialC12.Acc.after, hto, List.append_nil]
+      rcases processing_origin s op t' ht' with ⟨t, ht, hte⟩ | ⟨dl, rfl, hpn⟩
+      · obtain ⟨h1, h2⟩ := hrel.r2 t ht
+        rw [← hte]
+        refine ⟨?_, ?_⟩
+        · cases h : Serial.isReq op <;> simp [h1]
+        · intro hin
+          rcases List.mem_append.mp hin with hin | hin
+          · exact h2 hin
+          · exact (hexp _ hin).1 h1
+      · simp only [Serial.enabled, Bool.not_eq_true', List.contains_eq_mem, decide_eq_false_iff_not] at hen
+        refine ⟨by simp [Serial.isReq], ?_⟩
+        intro hin
+        rcases List.mem_append.mp hin with hin | hin
+        · exact hen (hrel.r1 _ hin)
+        · -- an expired request is answered at once: it cannot be the transaction now in flight
+          cases dl with
+          | past r =>
+            obtain ⟨cs, so, ores, pr⟩ := s
+            simp only at hpn; subst hpn
+            cases so <;> cases r <;>
+              simp [Serial.stepOut, Serial.St.request, Serial.St.txnTimeout, Serial.St.fault] at ht' <;>
+              (try (split at ht' <;> simp at ht'))
+          | none => simp [SerialC12.expiredOf] at hin
+          | future => simp [SerialC12.expiredOf] at hin
+
+end SerialSpec
+
+open SerialSpec in
+/-- the serial transport model satisfies the C12 clauses evaluated by component `serial12` on
+    every legal operation list (request ids fresh): no frame of a request is written once it has
+    been handed TimeoutError; a request already expired at the pre-write check is never written -/
+theorem C12_serial_model_satisfies_spec (ops : List Serial.Op) (h : Serial.opsOk Serial.St.init [] ops = true) :
+    SerialC12.spec () (SerialC12.comp.modelTrace () ops) = .ok :=
+  specGo_ok ops {} Serial.St.init [] ⟨by simp, by simp [Serial.St.init]⟩ h
 
 end Scales.C12
